@@ -306,8 +306,20 @@ class Shape:
             if e.attr in self.selfattrs:
                 return self.selfattrs[e.attr]
             return self.prop_or_unknown(e, env)
-        if s and s.startswith('self.model.') and s.count('.') == 2 and e.attr in self.selfattrs:
-            return self.selfattrs[e.attr]
+        if s and s.startswith('self.model.') and s.count('.') == 2:
+            if e.attr in self.selfattrs:
+                return self.selfattrs[e.attr]
+            fi = self.fi_stack[-1] if self.fi_stack else None
+            ci, _ = self.repo.receiver_class(fi, e.value) if fi is not None else (None, None)
+            if ci is not None and len(self.fi_stack) <= self.inline_depth:
+                p = self.repo.lookup_prop(ci, e.attr)
+                if p and 'get' in p:
+                    g = p['get']
+                    return self.result(g, {g.params[0]: UNK})
+                ca = self.repo.lookup_class_attr(ci, e.attr)
+                if ca is not None:
+                    return self.ev(ca, {})
+            return UNK
         v = self.ev(e.value, env)
         if isinstance(v, Rec):
             return v.fields.get(e.attr, UNK)
@@ -1221,7 +1233,7 @@ class Shape:
             if isinstance(s.target, ast.Name):
                 env[s.target.id] = v
             elif isinstance(s.target, ast.Subscript):
-                self.assign(s.target, v, env, s)
+                self.assign(s.target, v, env, s, aug=True)
         elif isinstance(s, ast.Return):
             rets.append((s, self.ev(s.value, env) if s.value is not None else NoneT()))
             return 'exit'
@@ -1271,7 +1283,7 @@ class Shape:
         """`assert x.shape[k] == n` style facts unify an unknown axis with a known space."""
         self.ev(test, env)
 
-    def assign(self, t, v, env, s):
+    def assign(self, t, v, env, s, aug=False):
         if isinstance(t, ast.Name):
             env[t.id] = v
         elif isinstance(t, (ast.Tuple, ast.List)):
@@ -1286,7 +1298,7 @@ class Shape:
                     self.report('space', s, 'dictionary keyed by %s is stored under a key of kind %s' % (base.key, k))
                 return
             lhs = self.ev(t, env)
-            if isinstance(lhs, Arr) and isinstance(v, Arr):
+            if isinstance(lhs, Arr) and isinstance(v, Arr) and not aug:
                 self.broadcast(s, lhs, v, UNK)
             tgt = base if isinstance(base, Arr) else None
             root = t.value
